@@ -275,7 +275,23 @@ let predict (c : string) (obs : string) : string * string * bool =
          Array.iteri (fun q sp -> if q <> p && pool_fault sp <> "none" then ok := false) specs; !ok) in
       let obs_list k = (match field of_ k with "" -> [||] | s -> Array.of_list (String.split_on_char ',' s)) in
       let q_obs = obs_list "Q" and a_obs = obs_list "A" in
+      (* pools whose provider is a decode provider on the scan decoder (scan-<poison>, k, m): Model/ScanDecode.v *)
+      let scan_of_pool p =
+        let f = pool_fields specs.(p) in
+        if Array.length f >= 8 && String.length f.(4) > 5 && String.sub f.(4) 0 5 = "scan-" then begin
+          let po = (match String.sub f.(4) 5 (String.length f.(4) - 5) with "io" | "long" -> SpScan | "bad" -> SpBad | _ -> SpNone) in
+          let k = (try int_of_string f.(5) with _ -> 0) and m = max 0 (try int_of_string f.(2) with _ -> 0) in
+          Some (sd_file (nat_of_int k) (nat_of_int m) po, f.(3) = "-1", int_of_string f.(0))
+        end else None in
       let gj_pred p =
+        match scan_of_pool p with
+        | Some ((chunks, end_err), unlimited, ninst) when undisturbed p && unlimited && ninst >= 1 ->
+            (match dp_run (nat_of_int (List.length chunks + 1)) sd_current chunks end_err (nat_of_int 0) with
+             | (PNil, d) -> Some ("nil", Some (int_of_nat d))
+             | (PFail, _) -> Some ("f.prov", None)
+             | (POutOfFuel, _) -> None)
+        | Some _ -> None
+        | None ->
         match gj_of_pool specs.(p) with
         | Some g when undisturbed p && g.g_unlimited_schedule && g.g_instances >= 1
                       && (int_of_nat g.g_cf.j_passes <> 0 || int_of_nat g.g_cf.j_limit <> 0) ->
@@ -448,6 +464,15 @@ let predict (c : string) (obs : string) : string * string * bool =
               else Some (Printf.sprintf "BAD:outcome:factory-result-not-the-constructors:%s-factory-of-the-plugin-registry pool=%d shape=%s constructor=%s factory=%s want=%s" g.p_what p g.p_shape c f want))
               calls
         | None -> None) (List.init npools (fun p -> p)) in
+      (* a provider reading a finite file once cannot hand out more ammo than the file holds: pools whose provider is
+         provider.DecodeProvider on provider.NewScanDecoder (scan-<poison>: k ammo lines, the broken element, m more) *)
+      let beyond_file = List.find_map (fun p ->
+        let f = pool_fields specs.(p) in
+        if Array.length f >= 8 && String.length f.(4) > 5 && String.sub f.(4) 0 5 = "scan-" then begin
+          let lines = (try int_of_string f.(5) with _ -> 0) + max 0 (try int_of_string f.(2) with _ -> 0) in
+          let shot = (try int_of_string a_obs.(p) with _ -> 0) in
+          if shot > lines then Some (p, shot, lines) else None
+        end else None) (List.init npools (fun p -> p)) in
       let verdict =
         if kind = "guns" then begin
           if spec_guns_b o then "ok"
@@ -464,6 +489,11 @@ let predict (c : string) (obs : string) : string * string * bool =
               (field of_ "C") (field of_ "L")
           end
         end
+        else if beyond_file <> None then
+          (match beyond_file with
+           | Some (p, shot, lines) ->
+               Printf.sprintf "BAD:outcome:shots-beyond-the-end-of-the-ammo-file:scan-decoder-provider pool=%d shots=%d ammo-in-the-file=%d run=%s" p shot lines r_obs
+           | None -> "ok")
         else if res_of_string r_obs = None then "BAD:run-hang Engine.Run did not return (" ^ r_obs ^ ")"
         else if not ((not sure_not_cancelled && spec_outcome_b fl true all_nil o.o_res) ||
                      (not sure_cancelled && spec_outcome_b fl false all_nil o.o_res)) then begin
